@@ -170,6 +170,13 @@ struct Throttle {
 impl Throttle {
     fn poll_chunk(&mut self, cx: &mut Context<'_>, out: &mut BytesMut) -> Poll<Chunk> {
         let drain = self.flags.borrow().drain;
+        if self.cell.borrow().is_none() {
+            return Poll::Ready(Chunk::Dropped);
+        }
+        if !drain && self.cfg.stall_pm >= 1000 {
+            // A reader that never reads (until the drain phase wakes every node): parked, not spinning.
+            return Poll::Pending;
+        }
         if !drain {
             if self.stalled > 0 {
                 self.stalled -= 1;
